@@ -19,6 +19,8 @@ func main() {
 		cmdDump(os.Args[2:])
 	case "check":
 		cmdCheck(os.Args[2:])
+	case "reach":
+		cmdReach(os.Args[2:])
 	default:
 		fmt.Fprintln(os.Stderr, "unknown command")
 		os.Exit(2)
@@ -119,3 +121,39 @@ func cmdDump(args []string) {
 	fmt.Printf("solve time %.1fs\n", time.Since(t0).Seconds())
 }
 
+
+// cmdReach: own-package functions reachable from the named roots through static calls and all
+// implementations of invoked interface methods (used to write the entry list of the frame property)
+func cmdReach(args []string) {
+	e := loadDefault("/repo")
+	e.computeModsets()
+	seen := map[string]bool{}
+	var work []*ssaFunc
+	for _, pat := range args {
+		for _, fn := range e.matchFuncs(pat) {
+			work = append(work, fn)
+		}
+	}
+	for len(work) > 0 {
+		f := work[len(work)-1]
+		work = work[:len(work)-1]
+		k := fnKey(f)
+		if seen[k] {
+			continue
+		}
+		seen[k] = true
+		for _, c := range e.calleesOf(f) {
+			if e.isOwnFunc(c) && len(c.Blocks) > 0 {
+				work = append(work, c)
+			}
+		}
+	}
+	var ks []string
+	for k := range seen {
+		ks = append(ks, k)
+	}
+	sort.Strings(ks)
+	for _, k := range ks {
+		fmt.Println(k)
+	}
+}
